@@ -3,4 +3,6 @@ INVARIANT C09_Contract
 INVARIANT C09_NeverOvercommitted
 INVARIANT C09_PrefixFeasible
 INVARIANT C09_WeightZeroNeverFree
+INVARIANT C09_AbstractionInv
+PROPERTY C09_AbstractionStep
 POSTCONDITION Export
